@@ -12,6 +12,7 @@ package c14
 import (
 	"fmt"
 	"net/http"
+	"net/url"
 	"sort"
 	"strings"
 	"time"
@@ -246,9 +247,12 @@ func (h *hist) step() {
 	h.curName = ""
 	pre := cloneModel(h.m)
 	empty := h.m.Count() == 0
-	if empty || h.r.Chance(22, 100) {
+	switch {
+	case empty || h.r.Chance(22, 100):
 		h.deliver()
-	} else {
+	case h.r.Chance(8, 100):
+		h.storeSideRemoval()
+	default:
 		h.apiCall()
 	}
 	h.checkErrLog()
@@ -269,6 +273,57 @@ func (h *hist) step() {
 			return
 		}
 		h.abort = true
+	}
+}
+
+// storeSideRemoval removes a live message directly through the store, the way POP3 QUIT, the
+// retention scanner and the limit enforcers do (none of them goes through the HTTP layer or the
+// message manager).  The API must report the message as gone from then on.
+func (h *hist) storeSideRemoval() {
+	var live []*model.Msg
+	for _, n := range h.names {
+		live = append(live, h.m.List(n)...)
+	}
+	if len(live) == 0 {
+		h.deliver()
+		return
+	}
+	// Prefer the message fetched most recently, if it is still there.
+	x := live[h.r.Intn(len(live))]
+	if h.r.Bool() && !strings.Contains(x.Mailbox, "/") {
+		// Read it through the API first, so that anything the HTTP layer or the manager might
+		// remember about this message is warm when it disappears underneath them.
+		h.request("rest-show", "GET", fmt.Sprintf("/api/v1/mailbox/%s/%s", url.PathEscape(x.Mailbox), url.PathEscape(x.ID)), nil)
+	}
+	if err := h.we.Store.RemoveMessage(x.Mailbox, x.ID); err != nil {
+		h.violation("C14:store-side-removal:error", fmt.Sprintf("Store.RemoveMessage(%q,%q) of a live message: %v", x.Mailbox, x.ID, err))
+		return
+	}
+	h.applyMutation("remove", x.Mailbox, x.ID)
+	h.log(step{Op: "store-side-removal", Req: x.Mailbox + "/" + x.ID})
+	h.c.Count("store_side_removals", 1)
+	// Ask for it right away through one of the read routes.
+	switch h.r.Intn(3) {
+	case 0:
+		h.restProbeGone(x.Mailbox, x.ID, "/api/v1/mailbox/%s/%s", "rest-show")
+	case 1:
+		h.restProbeGone(x.Mailbox, x.ID, "/serve/mailbox/%s/%s", "ui-message")
+	default:
+		h.restProbeGone(x.Mailbox, x.ID, "/api/v1/mailbox/%s/%s/source", "rest-source")
+	}
+}
+
+func (h *hist) restProbeGone(n, id, pattern, op string) {
+	if strings.Contains(n, "/") {
+		return // D13: not addressable anyway
+	}
+	path := fmt.Sprintf(pattern, url.PathEscape(n), url.PathEscape(id))
+	st, _, body, ok := h.request(op, "GET", path, nil)
+	if !ok {
+		return
+	}
+	if st != 404 {
+		h.violation("C14:"+op+":removed-message-still-served", fmt.Sprintf("GET %s answered %d after the message was removed from the store (body %q)", path, st, firstLines(string(body), 2)))
 	}
 }
 
